@@ -727,10 +727,21 @@ def check(case):
                 bad.append(("ext_grid-power", dict(element=int(idx), phase=x, sym_third=[s_sym.real, s_sym.imag],
                                                    ph=[rep[k].real, rep[k].imag])))
                 break
+    if opt["calculate_voltage_angles"]:
+        # the symmetric run itself misses the angle setpoint of an ext_grid while the three-phase run honours it
+        # (runpp bypasses the solver when nothing but slack buses is energized and then drops the slack angles)
+        for i in eg_live:
+            b, va_set = net.ext_grid.at[i, "bus"], float(net.ext_grid.at[i, "va_degree"])
+            if V[b] is None or math.isnan(float(rb.at[b, "va_degree"])):
+                continue
+            d_sym = abs((float(rb.at[b, "va_degree"]) - va_set + 180.0) % 360.0 - 180.0)
+            d_3ph = abs((float(rb3.at[b, "va_a_degree"]) - va_set + 180.0) % 360.0 - 180.0)
+            if d_sym > 1e-3 and d_3ph <= VA_TOL:
+                causes.add("sym-slack-angle-ignored")
     if bad:
         # deviations are attributed to the root causes proven by the balance oracle on this very case, as far as these
         # can explain the deviating quantity; everything else is a separate failure
-        reach = {"storage-ignored": None, "slack-bus-demand": {"ext_grid-power"}, "slack-ext-grid-duplicated": {"ext_grid-power"},
+        reach = {"storage-ignored": None, "sym-slack-angle-ignored": None, "slack-bus-demand": {"ext_grid-power"}, "slack-ext-grid-duplicated": {"ext_grid-power"},
                  "slack-zero-seq-admittance": {"ext_grid-power"}}
         rest = []
         hit = set()
